@@ -300,3 +300,36 @@ pub proof fn lemma_subrev_recompose(slo: nat, shi: nat, o: nat, d1: nat, hi3: na
         assert(pn * 1 == pn) by (nonlinear_arith);
     }
 }
+
+/// lexicographic order from the top digit decides the numeric order (equal lengths)
+pub proof fn lemma_lex_lt(a: Seq<u64>, b: Seq<u64>, k: int)
+    requires a.len() == b.len(), 0 <= k < a.len(), a[k] < b[k], forall|j: int| k < j < a.len() ==> a[j] == b[j]
+    ensures val(a) < val(b)
+{
+    let n = a.len();
+    lemma_valp_tail_eq2(a, b, (k + 1) as nat, n);
+    lemma_valp_bound(a, k as nat);
+    let p = pw(k as nat);
+    let x = a[k] as nat; let y = b[k] as nat;
+    assert(valp(a, (k + 1) as nat) == valp(a, k as nat) + x * p);
+    assert(valp(b, (k + 1) as nat) == valp(b, k as nat) + y * p);
+    assert(valp(a, k as nat) + x * p < y * p) by (nonlinear_arith) requires valp(a, k as nat) < p, x + 1 <= y;
+}
+
+pub proof fn lemma_valp_tail_eq2(f: Seq<u64>, o: Seq<u64>, i: nat, k: nat)
+    requires i <= k, k <= f.len(), k <= o.len(), forall|j: int| i <= j < k ==> f[j] == o[j]
+    ensures valp(f, k) - valp(f, i) == valp(o, k) - valp(o, i)
+    decreases k
+{
+    if k > i { lemma_valp_tail_eq2(f, o, i, (k - 1) as nat); }
+}
+
+/// under wf, a shorter sequence denotes a smaller number
+pub proof fn lemma_shorter_lt(a: Seq<u64>, b: Seq<u64>)
+    requires wf(a), wf(b), a.len() < b.len()
+    ensures val(a) < val(b)
+{
+    lemma_wf_lower(b);
+    lemma_valp_bound(a, a.len());
+    lemma_pw_mono(a.len(), (b.len() - 1) as nat);
+}
